@@ -141,6 +141,11 @@ var ctorCases = []ctorCase{
 		}
 		return limiter.NewDeadlineLimiter(gl, t0.Add(ticks(to)), nil), 0, to, false
 	}},
+	// a deadline that means "never": beyond what a Duration or a nanosecond count since 1970 can hold
+	{"deadline-far", "deadline", "", false, func(gl core.Limiter, lim, qmax, to int, evict bool, reg *RecordingRegistry, t0 time.Time) (core.Limiter, int, int, bool) {
+		far := []time.Time{time.Date(9999, 12, 31, 23, 59, 59, 0, time.UTC), time.Date(3000, 1, 1, 0, 0, 0, 0, time.UTC), time.Date(2263, 1, 1, 0, 0, 0, 0, time.UTC)}[(qmax+to+lim)%3]
+		return limiter.NewDeadlineLimiter(gl, far, nil), 0, 1 << 30, false // (TLC integers are 32 bit)
+	}},
 }
 
 // TestWrapperRandom runs seeded free-running scenarios (no gates: every step runs until the whole
@@ -185,6 +190,13 @@ func TestWrapperRandom(t *testing.T) {
 				sharedCtx := r.chance(1, 3)
 				if sharedCtx && cc.kind == "queue" {
 					class, qmaxReq, toReq = "mixed", 4, r.between(3, 6)
+				}
+				// now and then: the default backlog bound. A backlog size of zero or below asks for the default of 100: one
+				// holder, a hundred callers queue up one after the other, the next ones are refused at once
+				defaultBound := cc.kind == "queue" && !cc.blackbox && k%61 == 7
+				if defaultBound {
+					sharedCtx, class, lim, nproc = false, "full", 1, 103
+					qmaxReq, toReq = []int{0, -1, -100, -1 << 40}[r.intn(4)], -1
 				}
 				evict := r.chance(1, 2)
 				var names []string
@@ -299,6 +311,9 @@ func TestWrapperRandom(t *testing.T) {
 						do(schedStep{A: "start", P: hs[0], Call: "release", Outcome: r.pick([]string{"success", "ignore", "dropped"})})
 					}
 					initial = 0
+				}
+				if defaultBound {
+					initial = nproc
 				}
 				for a := 0; a < initial; a++ {
 					arrive()
